@@ -115,6 +115,15 @@ def cases(ctx):
         c = _gen(rng, ["combo_to_ds", "case_to_ds", "runner_combos", "runner_cases", "label_combos"][i % 5])
         c["varying"] = rng.choice(["datasetvc:3", "datasetvc:2", "dataarrayvc:3"])
         yield c
+    # sweeps of a few hundred settings through the executor paths (labels and rows must still pair with their own numbers)
+    for i in range(ctx.pick(6, 40)):
+        c = _gen(rng, ["combo_to_ds", "combo_to_df", "runner_combos", "runner_combos_df"][i % 4])
+        while c["xobj"]:
+            c = _gen(rng, c["entry"])
+        c["combos"] = [["a", list(range(17 + i % 4))], ["b", [0.5 * j for j in range(16)]]]
+        c["exec"] = ["threadpool", "fake_submit", "fake_apply"][i % 3]
+        c["big"] = True
+        yield c
     # to_df x shuffle on purpose (row/result pairing under a permutation)
     for i in range(ctx.pick(40, 400)):
         c = _gen(rng, ENTRIES_DF[i % len(ENTRIES_DF)])
